@@ -7,7 +7,7 @@ CHECK = {
     "entries": [
         {"fn": P + "vC10_sequence", "replay": "model-only"},
     ],
-    "opts": {"unwind": 24, "substitute": SUB, "feasibility": "light", "map_range": "per_entry", "map_dedup": True},
+    "opts": {"unwind": 8, "substitute": SUB},
     "stop": list(SUB.keys()),
     "explanation": "TODO",
     "bounds": {},
